@@ -173,6 +173,9 @@ StepSpawn(s0, ev, ln) ==
 StepPeer(s0, ev, ln) ==
   LET pre == s0.st  p == ev.p IN
   IF ev.r = "misuse" \/ p \notin Ends \/ pre.ad[p].live THEN Outside(s0, ev, ln)
+  \* closing with unread data resets the connection (ECONNRESET): outside the kernel model; it happens to a scripted close
+  \* when the real order of a batch let a writer put more into the queue than in the model's behaviour
+  ELSE IF ev.k = "close" /\ pre.q[p] # <<>> THEN Outside(s0, ev, ln)
   ELSE
   CASE ev.k = "w" ->
          LET want == IF Hup(pre, p) THEN 0 ELSE Min(ev.n, B - Len(pre.q[Other(p)]))
